@@ -76,7 +76,7 @@ variable (p : Program) (fr : Frame)
 /-- **C08_runtime (member)**: a declared member value yields the mapped target member's value -/
 theorem C08_runtime_member (fuel : Nat) (name tname : S) (v tv : ConstVal) (rest : List (S × ConstVal × EnumAction)) (dflt : EnumAction) (old : Val) (n : Nat) :
     evalConv p (fuel+1) fr (.enumc ((name, v, .member tname tv) :: rest) dflt) (.basic (constRepr v)) old n = .ok (.basic (constRepr tv), n) := by
-  simp [evalConv, List.find?, pure, StateT.pure]
+  simp [evalConv, applyEnumAction, List.find?, pure, StateT.pure]
 
 /-- **C08_runtime (unknown value)**: a value that matches no case follows enum:unknown exactly -/
 theorem C08_runtime_unknown (fuel : Nat) (cases : List (S × ConstVal × EnumAction)) (r : S) (old : Val) (n : Nat)
@@ -86,7 +86,7 @@ theorem C08_runtime_unknown (fuel : Nat) (cases : List (S × ConstVal × EnumAct
     evalConv p (fuel+1) fr (.enumc cases .panic) (.basic r) old n = .panic .enumUnknown ∧
     (∀ w, evalConv p (fuel+1) fr (.enumc cases (.error w)) (.basic r) old n = .err (wrapErr w fr.idx fr.keys .enumUnknown)) := by
   refine ⟨fun tname tv => ?_, ?_, ?_, fun w => ?_⟩ <;>
-    simp [evalConv, hno, pure, StateT.pure, panicE, errE]
+    simp [evalConv, applyEnumAction, hno, pure, StateT.pure, panicE, errE]
 
 /-- `@ignore` as unknown policy on a fresh target yields the zero value -/
 theorem C08_ignore_zero (fuel : Nat) (cases : List (S × ConstVal × EnumAction)) (r : S) (n : Nat)
